@@ -192,7 +192,7 @@ def replay(prop, path):
             if "alg" in v and "box" in v:
                 box = [tuple(d) for d in v["box"]]
                 st, out = nv.impl_prop(v["alg"], v["params"], box)
-                bad = props_sweep.check_case(v["alg"], v["params"], box, st, out, {"sound", "ground", "entail", "exact", "oob"})
+                bad = props_sweep.check_case(v["alg"], v["params"], box, st, out, {"sound", "ground", "entail", "exact", "oob", "term"})
                 print(("STILL FAILS " if bad else "passes now  ") + json.dumps({k: v[k] for k in ("alg", "params", "box")}) + (" :: " + bad[0][1] if bad else ""))
                 still += 1 if bad else 0
             elif v.get("op") in ("solve", "opt") or ("problem" in v and "cfg" in v and "rewrite" not in v):
